@@ -622,6 +622,29 @@ func (f *Frame) applyContract(con *Contract, key string, sig *types.Signature, a
 	} else {
 		vc.used["USES-CONTRACT:"+con.Key] = true
 	}
+	// interference (rely): cells that another goroutine may change at any time are havocked before the contract applies,
+	// constrained by the rely clauses (old(...) = before the interference).  The callee's contract itself stays the exact
+	// sequential contract that its body is verified against.
+	if len(con.Interferes) > 0 {
+		before := f.cur.clone()
+		for _, m := range con.Interferes {
+			k := vc.P.modKey(m)
+			if _, ok := vc.cellSort[k]; !ok {
+				if srt := vc.sortOfCellKey(k); srt != "" {
+					f.getCell(f.cur, k, srt)
+				}
+			}
+			if srt, ok := vc.cellSort[k]; ok {
+				f.getCell(before, k, srt)
+				f.cur.cells[k] = vc.fresh(k+"@interference", srt)
+			}
+		}
+		renv := f.calleeEnv(con, sig, args, f.cur, before, nil)
+		for _, r := range con.Rely {
+			vc.assume(implies(f.curReach, renv.evalBool(r.E)))
+		}
+		vc.used["A-RELY:"+con.Key] = true
+	}
 	pre := f.cur.clone()
 	env := f.calleeEnv(con, sig, args, f.cur, nil, nil)
 	if !c.IsInvoke() && c.StaticCallee() == nil {
